@@ -9,7 +9,8 @@
 //!        prints the sink's high_water_mark after every append, then the mark of a sink re-opened on the
 //!        same directory (bootstrap_from_manifest), then total rows and the frames of the manifest.
 //!   mat_frames <hexpath>                frames of the materialized store at <path> (read with the real
-//!        MaterializedStore::read_frame): per frame  maxts.maxid:k/ts/id,k/ts/id,...
+//!        MaterializedStore::read_frame): first `sink=<ts>.<id>` — the mark a real MaterializedSink re-opened on that
+//!        store carries (bootstrap_from_manifest) —, then per frame  maxts.maxid:k/ts/id,k/ts/id,...
 //!   mat_catalog <hex cols dir> <name>   the catalog entry of <name> read from disk with MaterializationCatalog::load / get:
 //!        cat=<ts>.<id> (0.0 = None) rows=<row_count>   | NOENTRY
 //!   mat_layout <hex cols dir> <uid>     per shard directory, per numeric segment directory holding <uid>.zones:
@@ -104,6 +105,15 @@ fn frames_probe(t: &[String]) -> String {
     if !p.join("manifest.bin").exists() { return "NOSTORE".into(); }
     let store = match MaterializedStore::open(&p) { Ok(s) => s, Err(e) => return format!("ERR {e}") };
     let mut out = Vec::new();
+    if let Some(first) = store.frames().first() {
+        let schema = first.schema.clone();
+        if let Ok(st2) = MaterializedStore::open(&p) {
+            match MaterializedSink::new(st2, schema) {
+                Ok(sink) => { let m = sink.high_water_mark(); out.push(format!("sink={}.{}", m.timestamp, m.event_id)); }
+                Err(_) => out.push("sink=?".to_string()),
+            }
+        }
+    }
     for meta in store.frames().to_vec() {
         let b = match store.read_frame(&meta) { Ok(b) => b, Err(e) => { out.push(format!("ERR{:?}", e).replace(' ', "_")); continue; } };
         let cols = b.schema().columns().to_vec();
